@@ -15,17 +15,18 @@ def StrictSorted (l : List Bytes) : Prop := l.Pairwise (fun a b => lexLt a b = t
 
 /-- The session identifier is the same whichever side computes it. -/
 theorem sessionPreimage_comm (a b : Bytes) : sessionPreimage a b = sessionPreimage b a := by
-  sorry
+  exact Solicit.sessionPreimage_comm a b
 
 theorem sessionID_comm (H : Bytes → Bytes) (a b : Bytes) : sessionID H a b = sessionID H b a := by
-  sorry
+  unfold sessionID
+  rw [Solicit.sessionPreimage_comm]
 
 /-- Well-formed peer IDs (what `IDFromBytes` accepts) are self-delimiting: a concatenation of
 two of them splits in only one way. -/
 theorem multihash_prefix_free (a b c d : Bytes)
     (ha : idFromBytes a = some a) (hc : idFromBytes c = some c)
     (h : a ++ b = c ++ d) : a = c ∧ b = d := by
-  sorry
+  exact idFromBytes_prefix_free a b c d ha hc h
 
 /-- Different peer pairs have different session-ID preimages (so, short of a BLAKE3 collision,
 different session IDs): the preimage determines the unordered pair. -/
@@ -34,28 +35,37 @@ theorem sessionPreimage_injective (a b c d : Bytes)
     (hc : idFromBytes c = some c) (hd : idFromBytes d = some d)
     (h : sessionPreimage a b = sessionPreimage c d) :
     (a = c ∧ b = d) ∨ (a = d ∧ b = c) := by
-  sorry
+  rcases sessionPreimage_cases a b with e1 | e1 <;>
+    rcases sessionPreimage_cases c d with e2 | e2 <;> rw [e1, e2] at h
+  · exact Or.inl (idFromBytes_prefix_free a b c d ha hc h)
+  · exact Or.inr (idFromBytes_prefix_free a b d c ha hd h)
+  · have := idFromBytes_prefix_free b a c d hb hc h
+    exact Or.inr ⟨this.2, this.1⟩
+  · have := idFromBytes_prefix_free b a d c hb hd h
+    exact Or.inl ⟨this.2, this.1⟩
 
 /-- The matched set of two sorted hash lists is exactly their set intersection… -/
 theorem findMatching_mem (l r : List Bytes) (hl : Sorted l) (hr : Sorted r) (x : Bytes) :
     x ∈ findMatching l r ↔ x ∈ l ∧ x ∈ r := by
-  sorry
+  exact findMatching_mem_iff l r hl hr x
 
 /-- …in order… -/
 theorem findMatching_sorted (l r : List Bytes) (hl : Sorted l) (hr : Sorted r) :
     Sorted (findMatching l r) := by
-  sorry
+  have _ := hr
+  exact List.Pairwise.sublist (findMatching_sublist l r) hl
 
 /-- …and duplicate-free when the inputs are. -/
 theorem findMatching_strict (l r : List Bytes) (hl : StrictSorted l) (hr : StrictSorted r) :
     StrictSorted (findMatching l r) := by
-  sorry
+  have _ := hr
+  exact List.Pairwise.sublist (findMatching_sublist l r) hl
 
 /-- `SortHashes` produces a sorted permutation. -/
 theorem sortHashes_sorted (l : List Bytes) : Sorted (sortHashes l) ∧ (sortHashes l).Perm l := by
-  sorry
+  exact sortHashes_sorted_perm l
 
 example : findMatching [[1], [2], [4]] [[2], [3], [4], [5]] = [[2], [4]] := by
-  sorry
+  simp [findMatching, lexLt]
 
 end Bifrost.Props.C32
